@@ -133,13 +133,22 @@ func (w *World) Start(op Op, ctx context.Context) {
 	if op.Client >= len(w.Clients) {
 		return
 	}
+	w.Register(op)
+	w.E.S.Go("call-"+strconv.Itoa(op.Tok), func() { w.Exec(op, ctx) })
+}
+
+// Exec performs the op in the calling goroutine.
+func (w *World) Exec(op Op, ctx context.Context) {
+	if op.Client >= len(w.Clients) {
+		return
+	}
 	c := w.Clients[op.Client]
-	t := w.Register(op)
+	t := w.E.Tok(op.Tok)
 	if ctx == nil {
 		ctx = context.Background()
 	}
 	e := w.E
-	e.S.Go("call-"+strconv.Itoa(op.Tok), func() {
+	{
 		t.mu.Lock()
 		t.Invoked = true
 		t.InvokeAt = e.S.Step()
@@ -154,6 +163,10 @@ func (w *World) Start(op Op, ctx context.Context) {
 			val, err = c.P.Call(ctx, op.Tok)
 		case "retry":
 			val, err = c.P.CallRetry(ctx, op.Tok)
+		case "retry-noctx":
+			val, err = c.P.CallRetryNoCtx(op.Tok)
+		case "call-noctx":
+			val, err = c.P.CallNoCtx(op.Tok)
 		case "alias":
 			val, err = c.P.AliasCall(ctx, op.Tok)
 		case "notify":
@@ -214,7 +227,7 @@ func (w *World) Start(op Op, ctx context.Context) {
 			es = err.Error()
 		}
 		simrt.Rec("return", strconv.Itoa(op.Tok), es, ival)
-	})
+	}
 }
 
 func (w *World) consume(op Op, ch <-chan int) {
@@ -306,7 +319,7 @@ func (w *World) CheckOwnResults(oracle string, allowConnErr bool) {
 			continue
 		}
 		switch kind {
-		case "call", "retry", "alias", "ctx":
+		case "call", "retry", "alias", "ctx", "retry-noctx", "call-noctx":
 		default:
 			continue
 		}
